@@ -21,7 +21,7 @@ def get(name):
     aggregators = get_all()
     a = None
     for aggregator in aggregators:
-        if name == aggregator.name():
+        if name == aggregator.name() and aggregator is not Quantile:
             a = aggregator()
     if a is None and verif.util.is_number(name):
         a = Quantile(float(name))
